@@ -681,7 +681,7 @@ func TestC02(t *testing.T) {
 	r.Exhaustive("concurrent", 0, c02Concurrent)
 	r.Exhaustive("two-filters", 0, c02TwoFilters)
 	r.Exhaustive("rotation", 0, c02Rotation)
-	r.Rapid("histories", r.N(12000, 200000), c02Prop)
+	r.Rapid("histories", r.N(12000, 500000), c02Prop)
 }
 
 // FuzzC02IDToken: coverage-guided mutation of the ID-token string served by the token endpoint on the login or
